@@ -129,7 +129,7 @@ Proof. unfold a_skipws at 2 3. apply skipws_l_idem. Qed.
 Lemma digits_bad ds : forall r res, all_digits ds -> stop_ok r -> a_digits (ds ++ r) res false = (res, false, r).
 Proof.
   induction ds as [|d ds IH]; intros r res Hd Hr.
-  - cbn [app]. destruct r as [|c r]; [reflexivity|]. cbn in *. rewrite Hr. reflexivity.
+  - cbn [app]. destruct r as [|c r]; [reflexivity|]. cbn [stop_ok] in Hr. cbn [a_digits]. rewrite Hr. reflexivity.
   - inversion Hd as [|? ? Hd1 Hd2]; subst. cbn [app a_digits]. rewrite Hd1. cbn [andb]. apply IH; assumption.
 Qed.
 
@@ -142,7 +142,7 @@ Lemma digits_value ds : forall r acc, all_digits ds -> stop_ok r -> 0 <= acc <= 
 Proof.
   induction ds as [|d ds IH]; intros r acc Hd Hr Hacc.
   - cbn [app value_acc]. destruct (Z.leb_spec acc INT64_MAX); [|lia].
-    destruct r as [|c r]; [reflexivity|]. cbn in *. rewrite Hr. reflexivity.
+    destruct r as [|c r]; [reflexivity|]. cbn [stop_ok] in Hr. cbn [a_digits]. rewrite Hr. reflexivity.
   - inversion Hd as [|? ? Hd1 Hd2]; subst. cbn [app a_digits value_acc]. rewrite Hd1.
     assert (Hdig : 0 <= to_digit d <= 9) by (unfold is_digit, to_digit in *; lia).
     cbn [andb]. destruct (Z.leb_spec acc ((INT64_MAX - to_digit d) / 10)) as [Hfit|Hno].
@@ -165,7 +165,7 @@ Lemma match_int_digits ws sg d ds r ln :
 Proof.
   intros Hws Hsg Hd Hr. inversion Hd as [|? ? Hd1 Hd2]; subst.
   assert (Hstop : ws_stop (sign_bytes sg ++ (d :: ds) ++ r)).
-  { destruct Hsg as [->|[->|->]]; cbn; [reflexivity | reflexivity |]. unfold is_digit, is_ws in *. lia. }
+  { destruct Hsg as [ -> | [ -> | -> ] ]; cbn; [reflexivity | reflexivity |]. unfold is_digit, is_ws in *. lia. }
   destruct (skipws_app ws _ ln Hws Hstop) as (ln' & E & Hl).
   exists ln'. split; [exact Hl|].
   unfold a_match_int. rewrite E. cbn [rest aline].
@@ -173,13 +173,18 @@ Proof.
   assert (Hval : value (d :: ds) = value_acc (to_digit d) ds) by (unfold value; cbn [value_acc]; f_equal; lia).
   pose proof (digits_value ds r (to_digit d) Hd2 Hr ltac:(unfold INT64_MAX; lia)) as Hdv.
   rewrite Hval.
-  destruct Hsg as [->|[->|->]]; unfold a_peek; cbn [sign_bytes Z.eqb orb app rest tl].
-  - rewrite Hd1. rewrite Hdv. destruct (value_acc (to_digit d) ds <=? INT64_MAX); reflexivity.
-  - rewrite Hd1. rewrite Hdv. destruct (value_acc (to_digit d) ds <=? INT64_MAX); reflexivity.
-  - assert (Hnp : (d =? 43) = false) by (unfold is_digit in Hd1; lia).
+  destruct Hsg as [ -> | [ -> | -> ] ].
+  - change (sign_bytes 43) with [43]. unfold a_peek. cbn [app rest tl].
+    change ((43 =? 43) || (43 =? 45)) with true. cbn iota. change (43 =? 45) with false. cbn iota.
+    rewrite Hd1. rewrite Hdv. destruct (value_acc (to_digit d) ds <=? INT64_MAX); reflexivity.
+  - change (sign_bytes 45) with [45]. unfold a_peek. cbn [app rest tl].
+    change ((45 =? 43) || (45 =? 45)) with true. cbn iota. change (45 =? 45) with true. cbn iota.
+    rewrite Hd1. rewrite Hdv. destruct (value_acc (to_digit d) ds <=? INT64_MAX); reflexivity.
+  - change (sign_bytes 0) with (@nil Z). unfold a_peek. cbn [app rest tl].
+    assert (Hnp : (d =? 43) = false) by (unfold is_digit in Hd1; lia).
     assert (Hnm : (d =? 45) = false) by (unfold is_digit in Hd1; lia).
-    rewrite Hnp, Hnm. cbn [orb]. rewrite Hd1. rewrite Hdv.
-    destruct (value_acc (to_digit d) ds <=? INT64_MAX); reflexivity.
+    rewrite Hnp, Hnm. cbn [orb]. cbn iota. change (0 =? 45) with false. cbn iota.
+    rewrite Hd1. rewrite Hdv. destruct (value_acc (to_digit d) ds <=? INT64_MAX); reflexivity.
 Qed.
 
 (* leading zeros do not change the value *)
